@@ -25,6 +25,9 @@ Definition stops_at (orc : oracle) (prog : program) (s : vm) (x : outcome stepre
 Lemma stops_at_now : forall orc prog s x, step orc prog s = x -> stops_at orc prog s x (mst_of s).
 Proof. intros orc prog s x H. exists O, s. cbn [steps]. auto. Qed.
 
+Lemma stops_at_now' : forall orc prog s x mf, step orc prog s = x -> mst_of s = mf -> stops_at orc prog s x mf.
+Proof. intros orc prog s x mf H <-. apply stops_at_now; exact H. Qed.
+
 Lemma reaches_stops_at : forall orc prog s1 s2 x mf, reaches orc prog s1 s2 -> v_out s2 = v_out s1 ->
   stops_at orc prog s2 x mf -> stops_at orc prog s1 x mf.
 Proof.
@@ -173,11 +176,11 @@ Proof.
     cbn [sim_expr] in Hsim1.
     set (sa := setm s (a :: v_stack s) (v_slen s + 1) (code_len st1) m1) in *.
     assert (mst_of sa = m1) as Esa by (unfold sa; apply mst_of_setm).
-    apply (reaches_stops_at orc prog s sa _ _ Hsim1 eq_refl). rewrite <- Esa.
+    apply (reaches_stops_at orc prog s sa _ _ Hsim1 eq_refl).
     destruct Hopc as [[-> ->]|[-> Hop2]].
     + pose proof (step_not orc prog sa a (v_stack s) [] Hcode2 eq_refl) as Hstep.
       destruct (lognot a) as [x| | |]; cbn [bind retag] in *;
-        [exfalso; eapply Hnok; reflexivity|apply (stops_at_now orc prog sa _ Hstep)..].
+        [exfalso; eapply Hnok; reflexivity|apply (stops_at_now' orc prog sa _ _ Hstep Esa)..].
     + pose proof (step_negate orc prog sa a (v_stack s) [] Hcode2 eq_refl) as Hstep.
       change (v_heap sa) with (m_heap m1) in Hstep.
       assert (match op with
@@ -188,7 +191,7 @@ Proof.
       { destruct Hop2 as [-> | ->]; reflexivity. }
       rewrite Eop in *.
       destruct (negate (m_heap m1) a) as [x| | |]; cbn [bind retag] in *;
-        [exfalso; eapply Hnok; reflexivity|apply (stops_at_now orc prog sa _ Hstep)..].
+        [exfalso; eapply Hnok; reflexivity|apply (stops_at_now' orc prog sa _ _ Hstep Esa)..].
   - (* EInt *)
     intros st st' Hg H ce Hce prog Hcode Hconsts s Hip Hnok. exfalso. eapply Hnok. reflexivity.
   - (* EBool *)
@@ -220,3 +223,942 @@ Proof.
       try (apply IHr; intros a0; discriminate).
     exfalso. eapply Hnok. reflexivity.
 Qed.
+
+(* the same for the statements of a line *)
+Fixpoint pexec_fail (orc : oracle) (t : symtab) (l : list stmt) (m : mst) : mst :=
+  match l with
+  | [] => m
+  | s :: r =>
+      match s with
+      | SLet x e =>
+          let '(t', sy) := define t x in
+          match peval orc (resolve t') e m with
+          | Ok (v, m1) => pexec_fail orc t' r (set_global_m (s_index sy) v m1)
+          | _ => pfail orc (resolve t') e m
+          end
+      | SExpr e =>
+          match peval orc (resolve t) e m with
+          | Ok (_, m1) => pexec_fail orc t r m1
+          | _ => pfail orc (resolve t) e m
+          end
+      | _ => m
+      end
+  end.
+
+Lemma compile_statements_cons : forall s0 l st,
+  compile_statements (s0 :: l) st = do st' <- compile_statement s0 st; compile_statements l st'.
+Proof. reflexivity. Qed.
+
+Theorem compile_stmts_fail : forall orc l, in_F1 l = true ->
+  forall st st', gtab (c_symbols st) -> compile_statements l st = Ok st' ->
+  forall ce, c_code st' = c_code st ++ ce ->
+  forall prog, code_at prog (code_len st) ce -> consts_ok prog (c_constants st') ->
+  forall s, v_ip s = code_len st ->
+  (forall a, pexec orc (c_symbols st) l (mst_of s) (v_final s) <> Ok a) ->
+  stops_at orc prog s (retag (pexec orc (c_symbols st) l (mst_of s) (v_final s)))
+           (pexec_fail orc (c_symbols st) l (mst_of s)).
+Proof.
+  intros orc l. induction l as [|s0 l IH]; intros HF st st' Hg H ce Hce prog Hcode Hconsts s Hip Hnok.
+  - exfalso. eapply Hnok. reflexivity.
+  - cbn [in_F1 forallb] in HF. apply andb_prop in HF. destruct HF as [HF0 HFl].
+    rewrite compile_statements_cons in H. apply bind_ok in H. destruct H as [st2 [H0 Hl]].
+    destruct (compile_stmts_sim orc l HFl st2 st') as [_ [ce3 [kx3 [Hc3 [Hk3 [Hf3 _]]]]]]; [|exact Hl|].
+    { (* gtab (c_symbols st2) *)
+      destruct s0 as [x e|e|e| | |]; try discriminate HF0; cbn [in_F1s] in HF0.
+      - rewrite cs_let in H0. destruct (define (c_symbols st) x) as [t' sy] eqn:Ed.
+        destruct (gtab_define _ _ _ _ Hg Ed) as [Hg' Hsy].
+        apply bind_ok in H0. destruct H0 as [st1 [H1 H2]].
+        destruct (emit_sym_spec _ _ _ _ H2) as [Hs2 _]. rewrite Hs2.
+        rewrite (compile_expr_symbols e (set_symbols st t') st1 HF0 Hg' H1). exact Hg'.
+      - rewrite cs_expr in H0. apply bind_ok in H0. destruct H0 as [st1 [H1 H2]].
+        inversion H2; subst st2. cbn [emit_opcode c_symbols].
+        rewrite (compile_expr_symbols e st st1 HF0 Hg H1). exact Hg. }
+    destruct s0 as [x e|e|e| | |]; try discriminate HF0; cbn [in_F1s] in HF0.
+    + (* SLet *)
+      rewrite cs_let in H0. destruct (define (c_symbols st) x) as [t' sy] eqn:Ed.
+      destruct (gtab_define _ _ _ _ Hg Ed) as [Hg' Hsy].
+      apply bind_ok in H0. destruct H0 as [st1 [H1 H2]].
+      unfold scoped in H2. rewrite Hsy in H2.
+      assert (gtab (c_symbols (set_symbols st t'))) as Hg0 by exact Hg'.
+      destruct (compile_expr_sim orc e HF0 (set_symbols st t') st1 (or_intror Hg0) H1)
+        as [Hs1 [ce1 [kx1 [Hc1 [Hk1 [Hf1 Hsim1]]]]]].
+      pose proof (compile_expr_fail orc e HF0 (set_symbols st t') st1 Hg0 H1 ce1 Hc1) as Hfail1.
+      cbn [set_symbols c_symbols c_code c_constants] in Hs1, Hc1, Hk1.
+      destruct (emit_sym_spec _ _ _ _ H2) as [Hs2 [Hk2 [Hr Hc2]]].
+      assert (gtab (c_symbols st2)) as Hg2 by (rewrite Hs2, Hs1; exact Hg').
+      set (idx := Z.of_nat (s_index sy)) in *.
+      assert (ce = ce1 ++ [byte_of_opcode OSetGlobal; idx mod 256; (idx / 256) mod 256] ++ ce3) as ->.
+      { apply (app_inv_head (c_code st)). rewrite <- Hce, Hc3, Hc2, Hc1, <- !app_assoc. reflexivity. }
+      assert (code_len (set_symbols st t') = code_len st) as L0 by reflexivity.
+      assert (code_len st1 = code_len st + zlength ce1) as L1.
+      { unfold code_len. rewrite Hc1, zlength_app. reflexivity. }
+      pose proof (code_len_app _ _ _ Hc2) as L2.
+      apply code_at_app in Hcode. destruct Hcode as [Hcode1 Hcode]. rewrite <- L1 in Hcode.
+      apply code_at_app in Hcode. destruct Hcode as [Hcode2 Hcode3]. rewrite <- L2 in Hcode3.
+      rewrite zlength3 in L2.
+      assert (consts_ok prog (c_constants st1)) as Hk1ok.
+      { apply (consts_ok_app prog _ kx3). rewrite <- Hk2, <- Hk3. exact Hconsts. }
+      rewrite <- L0 in Hcode1, Hip. specialize (Hsim1 prog Hcode1 Hk1ok s Hip).
+      specialize (Hfail1 prog Hcode1 Hk1ok s Hip).
+      cbn [set_symbols c_symbols] in Hsim1, Hfail1.
+      cbn [pexec pexec_fail] in *. rewrite Ed in *.
+      destruct (peval orc (resolve t') e (mst_of s)) as [[a m1]| | |]; cbn [bind] in *;
+        try (apply Hfail1; intros a0; discriminate).
+      cbn [sim_expr] in Hsim1.
+      set (sa := setm s (a :: v_stack s) (v_slen s + 1) (code_len st1) m1) in *.
+      pose proof (step_set_global orc prog sa idx a (v_stack s) [] Hcode2 Hr eq_refl) as Hstep.
+      set (sb := setmf s (code_len st2) (set_global_m (s_index sy) a m1) (v_final s)).
+      assert (setm sa (v_stack s) (v_slen sa - 1) (v_ip sa + 3) (set_global_m (Z.to_nat idx) a (mst_of sa)) = sb) as Esb.
+      { subst sa sb idx. unfold setm, setmf, mst_of, set_global_m. vmcbn. rewrite Nat2Z.id. f_equal; lia. }
+      rewrite Esb in Hstep.
+      assert (reaches orc prog s sb) as Hsb.
+      { apply (reaches_trans orc prog s sa _ Hsim1). apply reaches_step. exact Hstep. }
+      specialize (IH HFl st2 st' Hg2 Hl ce3 Hc3 prog Hcode3 Hconsts sb eq_refl).
+      rewrite Hs2, Hs1 in IH.
+      change (mst_of sb) with (mkM (m_heap (set_global_m (s_index sy) a m1)) (m_gc (set_global_m (s_index sy) a m1))
+                                   (m_gl (set_global_m (s_index sy) a m1))) in IH.
+      rewrite mst_eta in IH. change (v_final sb) with (v_final s) in IH.
+      apply (reaches_stops_at orc prog s sb _ _ Hsb eq_refl). apply IH. exact Hnok.
+    + (* SExpr *)
+      rewrite cs_expr in H0. apply bind_ok in H0. destruct H0 as [st1 [H1 H2]].
+      inversion H2; subst st2; clear H2.
+      destruct (compile_expr_sim orc e HF0 st st1 (or_intror Hg) H1)
+        as [Hs1 [ce1 [kx1 [Hc1 [Hk1 [Hf1 Hsim1]]]]]].
+      pose proof (compile_expr_fail orc e HF0 st st1 Hg H1 ce1 Hc1) as Hfail1.
+      assert (gtab (c_symbols (emit_opcode OPop st1))) as Hg2 by (cbn [emit_opcode c_symbols]; rewrite Hs1; exact Hg).
+      cbn [emit_opcode c_symbols c_code c_constants] in Hc3, Hk3.
+      assert (ce = ce1 ++ [byte_of_opcode OPop] ++ ce3) as ->.
+      { apply (app_inv_head (c_code st)). rewrite <- Hce, Hc3, Hc1, <- !app_assoc. reflexivity. }
+      pose proof (code_len_app _ _ _ Hc1) as L1.
+      pose proof (code_len_emit_opcode OPop st1) as L2.
+      apply code_at_app in Hcode. destruct Hcode as [Hcode1 Hcode]. rewrite <- L1 in Hcode.
+      apply code_at_app in Hcode. destruct Hcode as [Hcode2 Hcode3].
+      change (zlength [byte_of_opcode OPop]) with 1 in Hcode3. rewrite <- L2 in Hcode3.
+      assert (consts_ok prog (c_constants st1)) as Hk1ok.
+      { apply (consts_ok_app prog _ kx3). rewrite <- Hk3. exact Hconsts. }
+      specialize (Hsim1 prog Hcode1 Hk1ok s Hip).
+      specialize (Hfail1 prog Hcode1 Hk1ok s Hip).
+      cbn [pexec pexec_fail] in *.
+      destruct (peval orc (resolve (c_symbols st)) e (mst_of s)) as [[a m1]| | |]; cbn [bind] in *;
+        try (apply Hfail1; intros a0; discriminate).
+      cbn [sim_expr] in Hsim1.
+      set (sa := setm s (a :: v_stack s) (v_slen s + 1) (code_len st1) m1) in *.
+      pose proof (step_pop orc prog sa a (v_stack s) [] Hcode2 eq_refl) as Hstep.
+      set (sb := setmf s (code_len (emit_opcode OPop st1)) m1 a).
+      assert (mkVM (v_stack s) (v_slen sa - 1) (v_globals sa) (v_frames sa) (v_ip sa + 1) (v_bp sa) a
+                   (v_heap sa) (v_gc sa) (v_out sa) = sb) as Esb.
+      { subst sa sb. unfold setm, setmf. vmcbn. f_equal; lia. }
+      rewrite Esb in Hstep.
+      assert (reaches orc prog s sb) as Hsb.
+      { apply (reaches_trans orc prog s sa _ Hsim1). apply reaches_step. exact Hstep. }
+      specialize (IH HFl _ st' Hg2 Hl ce3 Hc3 prog Hcode3 Hconsts sb eq_refl).
+      cbn [emit_opcode c_symbols] in IH. rewrite Hs1 in IH.
+      change (mst_of sb) with (mkM (m_heap m1) (m_gc m1) (m_gl m1)) in IH.
+      rewrite mst_eta in IH. change (v_final sb) with a in IH.
+      apply (reaches_stops_at orc prog s sb _ _ Hsb eq_refl). apply IH. exact Hnok.
+Qed.
+
+(** * 2. Scalars: neither the heap nor the collector is touched, also on the failing paths *)
+
+Definition same_hg (m' m : mst) : Prop := scalar_m m' /\ m_heap m' = m_heap m /\ m_gc m' = m_gc m.
+
+Lemma same_hg_refl : forall m, scalar_m m -> same_hg m m.
+Proof. intros m H. split; [exact H|]. split; reflexivity. Qed.
+
+Lemma same_hg_trans : forall a b c, same_hg a b -> same_hg b c -> same_hg a c.
+Proof. intros a b c [A1 [A2 A3]] [B1 [B2 B3]]. split; [exact A1|]. split; congruence. Qed.
+
+Lemma peval_same_hg : forall orc rs e, in_F1e e = true -> forall m v m', scalar_m m ->
+  peval orc rs e m = Ok (v, m') -> scalar v = true /\ same_hg m' m.
+Proof.
+  intros orc rs e HF m v m' Hm H.
+  destruct (peval_scalar orc rs e HF m v m' Hm H) as [A [B [C [D _]]]]. split; [exact A|]. split; auto.
+Qed.
+
+Lemma pfail_same_hg : forall orc rs e, in_F1e e = true -> forall m, scalar_m m -> same_hg (pfail orc rs e m) m.
+Proof.
+  intros orc rs e. induction e as [l IHl op r IHr|op r IHr|z| |b| |x| | |l IHl r IHr| | | |];
+    intros HF m Hm; try discriminate HF; cbn [in_F1e] in HF; cbn [pfail]; try (apply same_hg_refl; exact Hm).
+  - apply andb_prop in HF. destruct HF as [HF Hr]. apply andb_prop in HF. destruct HF as [Hop Hl].
+    destruct (peval orc rs l m) as [[a m1]| | |] eqn:El; try (apply IHl; assumption).
+    destruct (peval_same_hg orc rs l Hl m a m1 Hm El) as [_ S1].
+    destruct (peval orc rs r m1) as [[b m2]| | |] eqn:Er;
+      try (apply (same_hg_trans _ m1); [apply IHr; [assumption|apply S1]|exact S1]).
+    destruct (peval_same_hg orc rs r Hr m1 b m2 (proj1 S1) Er) as [_ S2].
+    apply (same_hg_trans _ m1); assumption.
+  - apply andb_prop in HF. destruct HF as [Hop Hr].
+    destruct (peval orc rs r m) as [[a m1]| | |] eqn:Er; try (apply IHr; assumption).
+    exact (proj2 (peval_same_hg orc rs r Hr m a m1 Hm Er)).
+  - destruct l as [| | | | | |x| | | | | | |]; try discriminate HF.
+    destruct (rs x); [apply IHr; assumption|apply same_hg_refl; exact Hm].
+Qed.
+
+Lemma set_global_same_hg : forall i v m, scalar v = true -> scalar_m m -> same_hg (set_global_m i v m) m.
+Proof.
+  intros i v m Hv Hm. split; [|split; reflexivity]. unfold scalar_m, set_global_m. cbn [m_gl].
+  apply scalar_set_global; assumption.
+Qed.
+
+Lemma pexec_same_hg : forall orc l, in_F1 l = true -> forall t m fin m' fin',
+  scalar_m m -> scalar fin = true -> pexec orc t l m fin = Ok (m', fin') ->
+  scalar fin' = true /\ same_hg m' m.
+Proof.
+  intros orc l. induction l as [|s0 l IH]; intros HF t m fin m' fin' Hm Hfin H.
+  - cbn [pexec] in H. inversion H; subst. split; [exact Hfin|apply same_hg_refl; exact Hm].
+  - cbn [in_F1 forallb] in HF. apply andb_prop in HF. destruct HF as [HF0 HFl].
+    destruct s0 as [x e|e|e| | |]; try discriminate HF0; cbn [in_F1s] in HF0; cbn [pexec] in H.
+    + destruct (define t x) as [t' sy].
+      destruct (peval orc (resolve t') e m) as [[a m1]| | |] eqn:Ee; try discriminate H. cbn [bind] in H.
+      destruct (peval_same_hg orc _ e HF0 m a m1 Hm Ee) as [Sa S1].
+      pose proof (set_global_same_hg (s_index sy) a m1 Sa (proj1 S1)) as S2.
+      destruct (IH HFl t' _ fin m' fin' (proj1 S2) Hfin H) as [F S3].
+      split; [exact F|]. apply (same_hg_trans _ _ _ S3). apply (same_hg_trans _ _ _ S2 S1).
+    + destruct (peval orc (resolve t) e m) as [[a m1]| | |] eqn:Ee; try discriminate H. cbn [bind] in H.
+      destruct (peval_same_hg orc _ e HF0 m a m1 Hm Ee) as [Sa S1].
+      destruct (IH HFl t m1 a m' fin' (proj1 S1) Sa H) as [F S3].
+      split; [exact F|]. apply (same_hg_trans _ _ _ S3 S1).
+Qed.
+
+Lemma pexec_fail_same_hg : forall orc l, in_F1 l = true -> forall t m, scalar_m m ->
+  same_hg (pexec_fail orc t l m) m.
+Proof.
+  intros orc l. induction l as [|s0 l IH]; intros HF t m Hm; cbn [pexec_fail].
+  - apply same_hg_refl; exact Hm.
+  - cbn [in_F1 forallb] in HF. apply andb_prop in HF. destruct HF as [HF0 HFl].
+    destruct s0 as [x e|e|e| | |]; try discriminate HF0; cbn [in_F1s] in HF0.
+    + destruct (define t x) as [t' sy].
+      destruct (peval orc (resolve t') e m) as [[a m1]| | |] eqn:Ee; try (apply pfail_same_hg; assumption).
+      destruct (peval_same_hg orc _ e HF0 m a m1 Hm Ee) as [Sa S1].
+      pose proof (set_global_same_hg (s_index sy) a m1 Sa (proj1 S1)) as S2.
+      apply (same_hg_trans _ _ _ (IH HFl t' _ (proj1 S2))). apply (same_hg_trans _ _ _ S2 S1).
+    + destruct (peval orc (resolve t) e m) as [[a m1]| | |] eqn:Ee; try (apply pfail_same_hg; assumption).
+      destruct (peval_same_hg orc _ e HF0 m a m1 Hm Ee) as [Sa S1].
+      apply (same_hg_trans _ _ _ (IH HFl t _ (proj1 S1)) S1).
+Qed.
+
+(** * 3. Sem and the intermediate evaluator, with the state a failure leaves behind *)
+
+Definition agree_expr_st (ds : decls) (sst : sstate) (r : res val) (p : outcome (val * mst)) (mf : mst) : Prop :=
+  r = RFuel \/
+  match p with
+  | Ok (v, m') => exists sst', r = ROk v sst' /\ Rel ds sst' m' /\ st_out sst' = st_out sst
+                               /\ st_next sst' = st_next sst
+  | Err k => exists sst', r = RErr k sst' /\ Rel ds sst' mf /\ st_out sst' = st_out sst
+                          /\ st_next sst' = st_next sst
+  | Fault f => exists sst', r = RFault f sst' /\ Rel ds sst' mf /\ st_out sst' = st_out sst
+                            /\ st_next sst' = st_next sst
+  | OutOfFuel => False
+  end.
+
+Lemma sem_peval_st : forall orc k e, in_F1e e = true ->
+  forall fuel ds sst m, Rel ds sst m ->
+  agree_expr_st ds sst (eval_expr orc fuel (mkD [rev ds] None) e sst)
+                (peval orc (resolve (names_tab k (map fst ds))) e m)
+                (pfail orc (resolve (names_tab k (map fst ds))) e m).
+Proof.
+  intros orc k e. induction e as [l IHl op r IHr|op r IHr|z| |b| |x| | |l IHl r IHr| | | |];
+    intros HF fuel ds sst m HR; try discriminate HF; cbn [in_F1e] in HF;
+    (destruct fuel as [|f]; [left; reflexivity|]).
+  - (* EInfix *)
+    apply andb_prop in HF. destruct HF as [HF Hr]. apply andb_prop in HF. destruct HF as [Hop Hl].
+    rewrite ee_infix. cbn [peval pfail].
+    destruct (IHl Hl f ds sst m HR) as [E|H1]; [fuel_left E|].
+    destruct (peval orc (resolve (names_tab k (map fst ds))) l m) as [[a m1]|e1|f1|];
+      [|destruct H1 as [s' [E O]]; rewrite E; right; exists s'; split; [reflexivity|exact O]..|destruct H1].
+    destruct H1 as [sst1 [E1 [R1 [O1 N1]]]]. rewrite E1. cbn [rbind bind].
+    destruct (IHr Hr f ds sst1 m1 R1) as [E|H2]; [fuel_left E|].
+    destruct (peval orc (resolve (names_tab k (map fst ds))) r m1) as [[b m2]|e2|f2|];
+      [|destruct H2 as [s' [E [R [O N]]]]; rewrite E; right; exists s'; split; [reflexivity|];
+        split; [exact R|]; split; congruence..|destruct H2].
+    destruct H2 as [sst2 [E2 [R2 [O2 N2]]]]. rewrite E2. cbn [rbind bind].
+    destruct (Sem.method_of op) as [mth|].
+    + rewrite (R_heap _ _ _ R2).
+      destruct (binop orc mth (m_heap m2) a b) as [[v h']| | |]; cbn [lift_heap bind fst].
+      * right. eexists. split; [reflexivity|]. split; [apply Rel_heap; exact R2|].
+        cbn [st_out st_next]. split; congruence.
+      * right. exists sst2. split; [reflexivity|]. split; [exact R2|]. split; congruence.
+      * right. exists sst2. split; [reflexivity|]. split; [exact R2|]. split; congruence.
+      * left; reflexivity.
+    + right. exists sst2. split; [reflexivity|]. split; [exact R2|]. split; congruence.
+  - (* EPrefix *)
+    apply andb_prop in HF. destruct HF as [Hop Hr].
+    rewrite ee_prefix. cbn [peval pfail].
+    destruct (IHr Hr f ds sst m HR) as [E|H1]; [fuel_left E|].
+    destruct (peval orc (resolve (names_tab k (map fst ds))) r m) as [[a m1]|e1|f1|];
+      [|destruct H1 as [s' [E O]]; rewrite E; right; exists s'; split; [reflexivity|exact O]..|destruct H1].
+    destruct H1 as [sst1 [E1 [R1 [O1 N1]]]]. rewrite E1. cbn [rbind bind].
+    assert (agree_expr_st ds sst (lift_heap sst1 (negate (st_heap sst1) a))
+                       (do x <- negate (m_heap m1) a; Ok (fst x, with_new_m m1 x)) m1) as Hneg.
+    { rewrite (R_heap _ _ _ R1).
+      destruct (negate (m_heap m1) a) as [[v h']| | |]; cbn [lift_heap bind fst].
+      - right. eexists. split; [reflexivity|]. split; [apply Rel_heap; exact R1|].
+        cbn [st_out st_next]. split; congruence.
+      - right. exists sst1. split; [reflexivity|]. split; [exact R1|]. split; congruence.
+      - right. exists sst1. split; [reflexivity|]. split; [exact R1|]. split; congruence.
+      - left; reflexivity. }
+    destruct op; try discriminate Hop.
+    + exact Hneg.
+    + destruct (lognot a) as [v| | |]; cbn [lift_plain bind].
+      * right. exists sst1. split; [reflexivity|]. split; [exact R1|]. split; congruence.
+      * right. exists sst1. split; [reflexivity|]. split; [exact R1|]. split; congruence.
+      * right. exists sst1. split; [reflexivity|]. split; [exact R1|]. split; congruence.
+      * left; reflexivity.
+    + exact Hneg.
+  - (* EInt *)
+    rewrite ee_int. cbn [peval]. right. exists sst. auto.
+  - (* EBool *)
+    rewrite ee_bool. cbn [peval]. right. exists sst. auto.
+  - (* EIdent *)
+    rewrite ee_ident. cbn [peval pfail]. rewrite d_lookup_top, resolve_names.
+    pose proof (lookup_agree ds x) as HL.
+    destruct (rposition x (map fst ds)) as [i|]; cbn [option_map].
+    + destruct HL as [y [c [Hi Hc]]]. rewrite Hc. cbn [s_index]. right. exists sst.
+      rewrite (R_val _ _ _ HR i y c Hi). auto.
+    + rewrite HL. right. exists sst. auto.
+  - (* EAssign *)
+    destruct l as [| | | | | |x| | | | | | |]; try discriminate HF.
+    rewrite ee_assign_ident. cbn [peval pfail]. rewrite d_lookup_top, resolve_names.
+    pose proof (lookup_agree ds x) as HL.
+    destruct (rposition x (map fst ds)) as [i|]; cbn [option_map].
+    + destruct HL as [y [c [Hi Hc]]]. rewrite Hc. cbn [s_index].
+      destruct (IHr HF f ds sst m HR) as [E|H1]; [fuel_left E|].
+      destruct (peval orc (resolve (names_tab k (map fst ds))) r m) as [[a m1]|e1|f1|];
+        [|destruct H1 as [s' [E O]]; rewrite E; right; exists s'; split; [reflexivity|exact O]..|destruct H1].
+      destruct H1 as [sst1 [E1 [R1 [O1 N1]]]]. rewrite E1. cbn [rbind bind].
+      right. eexists. split; [reflexivity|]. split; [apply (Rel_set ds sst1 m1 i y c a R1 Hi)|].
+      cbn [set_cell st_out st_next]. auto.
+    + rewrite HL. right. exists sst. auto.
+Qed.
+
+(* the names a line of F1 declares, in order *)
+Fixpoint lets (l : list stmt) : list text :=
+  match l with
+  | [] => []
+  | SLet x _ :: r => x :: lets r
+  | _ :: r => lets r
+  end.
+
+Lemma et_nil : forall orc fuel c last st, exec_top orc fuel c [] last st = (c, ROk last st).
+Proof. reflexivity. Qed.
+Lemma et_let : forall orc fuel c x e r last st,
+  exec_top orc fuel c (SLet x e :: r) last st =
+  let '(cl, st1) := new_cell st in
+  let c' := d_declare c x cl in
+  match eval_expr orc fuel c' e st1 with
+  | ROk v st2 => exec_top orc fuel c' r VNull (set_cell cl v st2)
+  | other => (c', other)
+  end.
+Proof. reflexivity. Qed.
+Lemma et_expr : forall orc fuel c e r last st,
+  exec_top orc fuel c (SExpr e :: r) last st =
+  match eval_expr orc fuel c e st with
+  | ROk v st1 =>
+      let c' := match e with
+                | EFunction (ch :: name) _ _ => d_declare c (ch :: name) (Pos.pred (st_next st1))
+                | _ => c
+                end in
+      exec_top orc fuel c' r v st1
+  | other => (c, other)
+  end.
+Proof. reflexivity. Qed.
+
+Definition agree_top (ds : decls) (l : list stmt) (sst : sstate) (lastS fin : val)
+    (cr : dctx * res val) (p : outcome (mst * val)) (mf : mst) : Prop :=
+  snd cr = RFuel \/
+  exists ds', fst cr = mkD [rev ds'] None /\
+  match p with
+  | Ok (m', fin') =>
+      exists v sst', snd cr = ROk v sst' /\ Rel ds' sst' m' /\ st_out sst' = st_out sst /\
+                     map fst ds' = map fst ds ++ lets l /\
+                     (ends_expr l = true -> (l = [] -> fin = lastS) -> v = fin')
+  | Err k => exists sst', snd cr = RErr k sst' /\ Rel ds' sst' mf /\ st_out sst' = st_out sst
+  | Fault f => exists sst', snd cr = RFault f sst' /\ Rel ds' sst' mf /\ st_out sst' = st_out sst
+  | OutOfFuel => False
+  end.
+
+Lemma sem_pexec_top : forall orc l, in_F1 l = true ->
+  forall fuel k ds sst m lastS fin, Rel ds sst m ->
+  agree_top ds l sst lastS fin (exec_top orc fuel (mkD [rev ds] None) l lastS sst)
+            (pexec orc (names_tab k (map fst ds)) l m fin)
+            (pexec_fail orc (names_tab k (map fst ds)) l m).
+Proof.
+  intros orc l. induction l as [|s0 l IH]; intros HF fuel k ds sst m lastS fin HR.
+  - rewrite et_nil. cbn [pexec pexec_fail]. right. exists ds. split; [reflexivity|].
+    exists lastS, sst. cbn [snd lets]. rewrite app_nil_r.
+    split; [reflexivity|]. split; [exact HR|]. split; [reflexivity|]. split; [reflexivity|].
+    intros _ H. symmetry. apply H. reflexivity.
+  - cbn [in_F1 forallb] in HF. apply andb_prop in HF. destruct HF as [HF0 HFl].
+    destruct s0 as [x e|e|e| | |]; try discriminate HF0; cbn [in_F1s] in HF0.
+    + (* SLet *)
+      rewrite et_let. unfold new_cell. unfold d_declare. cbn [d_local d_global].
+      set (sst1 := mkSt (st_heap sst) (st_cells sst) (Pos.succ (st_next sst)) (st_funs sst) (st_out sst)).
+      set (cl := st_next sst).
+      rewrite <- (rev_unit ds (x, cl)).
+      cbn [pexec pexec_fail]. rewrite define_names. cbn [s_index].
+      set (ds' := ds ++ [(x, cl)]).
+      assert (map fst ds ++ [x] = map fst ds') as -> by (unfold ds'; rewrite map_app; reflexivity).
+      assert (Rel ds' sst1 m) as HR1 by exact (Rel_declare ds sst m x HR).
+      destruct (sem_peval_st orc (S k) e HF0 fuel ds' sst1 m HR1) as [E|H1]; [left; rewrite E; reflexivity|].
+      destruct (peval orc (resolve (names_tab (S k) (map fst ds'))) e m) as [[a m1]|e1|f1|];
+        [|destruct H1 as [s' [E [R [O N]]]]; rewrite E; right; exists ds'; split; [reflexivity|];
+          exists s'; split; [reflexivity|]; split; [exact R|exact O]..|destruct H1].
+      destruct H1 as [sst2 [E2 [R2 [O2 N2]]]]. rewrite E2. cbn [bind].
+      rewrite map_length.
+      assert (nth_error ds' (length ds) = Some (x, cl)) as Hnth.
+      { unfold ds'. rewrite nth_error_app2 by lia. rewrite Nat.sub_diag. reflexivity. }
+      pose proof (Rel_set ds' sst2 m1 (length ds) x cl a R2 Hnth) as R3.
+      destruct (IH HFl fuel (S k) ds' (set_cell cl a sst2) (set_global_m (length ds) a m1) VNull fin R3)
+        as [E|[ds2 [Ec H3]]]; [left; exact E|].
+      right. exists ds2. split; [exact Ec|].
+      assert (map fst ds' = map fst ds ++ [x]) as Eds' by (unfold ds'; rewrite map_app; reflexivity).
+      destruct (pexec orc (names_tab (S k) (map fst ds')) l (set_global_m (length ds) a m1) fin)
+        as [[m' fin']|e3|f3|]; [| | |destruct H3].
+      * destruct H3 as [v [s' [E [R [O [Nm Hv]]]]]]. exists v, s'. split; [exact E|]. split; [exact R|].
+        split; [rewrite O; cbn [set_cell st_out]; exact O2|].
+        split; [rewrite Nm, Eds'; cbn [lets]; rewrite <- app_assoc; reflexivity|].
+        intros HE _. apply Hv.
+        -- destruct l; [discriminate HE|exact HE].
+        -- intros ->. discriminate HE.
+      * destruct H3 as [s' [E [R O]]]. exists s'. split; [exact E|]. split; [exact R|].
+        rewrite O. cbn [set_cell st_out]. exact O2.
+      * destruct H3 as [s' [E [R O]]]. exists s'. split; [exact E|]. split; [exact R|].
+        rewrite O. cbn [set_cell st_out]. exact O2.
+    + (* SExpr *)
+      rewrite et_expr. cbn [pexec pexec_fail].
+      destruct (sem_peval_st orc k e HF0 fuel ds sst m HR) as [E|H1]; [left; rewrite E; reflexivity|].
+      destruct (peval orc (resolve (names_tab k (map fst ds))) e m) as [[a m1]|e1|f1|];
+        [|destruct H1 as [s' [E [R [O N]]]]; rewrite E; right; exists ds; split; [reflexivity|];
+          exists s'; split; [reflexivity|]; split; [exact R|exact O]..|destruct H1].
+      destruct H1 as [sst1 [E1 [R1 [O1 N1]]]]. rewrite E1. cbn [bind].
+      assert (match e with
+              | EFunction (ch :: name) _ _ =>
+                  d_declare (mkD [rev ds] None) (ch :: name) (Pos.pred (st_next sst1))
+              | _ => mkD [rev ds] None
+              end = mkD [rev ds] None) as ->.
+      { destruct e; try discriminate HF0; reflexivity. }
+      destruct (IH HFl fuel k ds sst1 m1 a a R1) as [E|[ds2 [Ec H3]]]; [left; exact E|].
+      right. exists ds2. split; [exact Ec|].
+      destruct (pexec orc (names_tab k (map fst ds)) l m1 a) as [[m' fin']|e3|f3|]; [| | |destruct H3].
+      * destruct H3 as [v [s' [E [R [O [Nm Hv]]]]]]. exists v, s'. split; [exact E|]. split; [exact R|].
+        split; [congruence|]. split; [exact Nm|].
+        intros HE _. apply Hv; [|reflexivity]. destruct l; [reflexivity|exact HE].
+      * destruct H3 as [s' [E [R O]]]. exists s'. split; [exact E|]. split; [exact R|congruence].
+      * destruct H3 as [s' [E [R O]]]. exists s'. split; [exact E|]. split; [exact R|congruence].
+Qed.
+
+(** * 4. The retained compiler on a line of F1: what it answers, what it keeps *)
+
+(* accepted: loop contexts and (for expressions) the symbol table as before; rejected: an undeclared name,
+   or the line does not fit the bytecode format (`operand`) *)
+Definition okk (st : cstate) (r : outcome cstate) : Prop :=
+  match r with
+  | Ok st' => c_loops st' = c_loops st /\ c_symbols st' = c_symbols st
+  | Err k => k = EReferenceError \/ k = ESyntaxError
+  | _ => False
+  end.
+
+Lemma okk_bind : forall st r k, okk st r -> (forall st1, r = Ok st1 -> okk st1 (k st1)) -> okk st (bind r k).
+Proof.
+  intros st [st1|e|f|] k H Hk; cbn [bind okk] in *; try assumption.
+  specialize (Hk st1 eq_refl). destruct H as [L S].
+  destruct (k st1) as [st2|e|f|]; cbn [okk] in *; try assumption.
+  destruct Hk as [L2 S2]. split; congruence.
+Qed.
+
+Lemma operand_kinds : forall bits v, (exists i, operand bits v = Ok i) \/ operand bits v = Err ESyntaxError.
+Proof. intros bits v. unfold operand. destruct (v <? 2 ^ bits); [left; eauto|right; reflexivity]. Qed.
+
+Lemma add_constant_frame : forall k st st1 r, add_constant k st = (st1, r) ->
+  c_loops st1 = c_loops st /\ c_symbols st1 = c_symbols st /\ ((exists i, r = Ok i) \/ r = Err ESyntaxError).
+Proof.
+  intros k st st1 r H. unfold add_constant in H.
+  destruct (const_position k (c_constants st)); inversion H; subst; cbn [c_loops c_symbols];
+    (split; [reflexivity|split; [reflexivity|apply operand_kinds]]).
+Qed.
+
+Lemma emit_const_okk : forall k st, okk st (emit_const k st).
+Proof.
+  intros k st. unfold emit_const. destruct (add_constant k st) as [st1 r] eqn:E.
+  destruct (add_constant_frame k st st1 r E) as [L [S [[i ->]| ->]]]; cbn [bind okk emit_u16 emit_opcode c_loops c_symbols]; auto.
+Qed.
+
+Lemma emit_sym_okk : forall op sy st, okk st (emit_sym op sy st).
+Proof.
+  intros op sy st. unfold emit_sym.
+  destruct (operand_kinds 16 (Z.of_nat (s_index sy))) as [[i ->]| ->];
+    cbn [bind okk emit_u16 emit_opcode c_loops c_symbols]; auto.
+Qed.
+
+Lemma const_var_infix_loops : forall name v op st st1, compile_const_var_infix name v op st = (st1, false) ->
+  c_loops st1 = c_loops st.
+Proof.
+  intros name v op st st1 H. unfold compile_const_var_infix in H.
+  destruct (add_constant (KInt v) st) as [st0 r] eqn:E.
+  destruct (add_constant_frame _ _ _ _ E) as [L _].
+  destruct r as [idx| | |]; try (inversion H; subst; exact L).
+  destruct (resolve (c_symbols st0) name) as [sy|]; [|inversion H; subst; exact L].
+  destruct (s_scope sy); [|inversion H; subst; exact L].
+  destruct (assoc operator_eqb op fused_table); [|inversion H; subst; exact L].
+  destruct (operand 16 (Z.of_nat (s_index sy))); inversion H; subst; cbn [emit_opcode c_loops]; exact L.
+Qed.
+
+Lemma compile_expr_okk : forall e, in_F1e e = true -> forall st, gtab (c_symbols st) ->
+  okk st (compile_expression e st).
+Proof.
+  intros e. induction e as [l IHl op r IHr|op r IHr|z| |b| |x| | |l IHl r IHr| | | |];
+    intros HF st Hg; try discriminate HF; cbn [in_F1e] in HF.
+  - apply andb_prop in HF. destruct HF as [HF Hr]. apply andb_prop in HF. destruct HF as [Hop Hl].
+    rewrite ce_infix.
+    assert (forall st0, gtab (c_symbols st0) -> okk st0 (generic_infix l op r st0)) as Hgen.
+    { intros st0 Hg0. unfold generic_infix. apply okk_bind; [apply IHl; assumption|].
+      intros st1 E1. assert (gtab (c_symbols st1)) as Hg1.
+      { rewrite (compile_expr_symbols l st0 st1 Hl Hg0 E1). exact Hg0. }
+      apply okk_bind; [apply IHr; assumption|]. intros st2 E2.
+      destruct (assoc operator_eqb op compile_operator_table) as [opc|] eqn:Eo.
+      - cbn [okk emit_opcode c_loops c_symbols]. auto.
+      - destruct op; try discriminate Hop; discriminate Eo. }
+    destruct (fused_candidate l r op) as [[[name v] op']|]; [|apply Hgen; exact Hg].
+    destruct (compile_const_var_infix name v op' st) as [st1 done] eqn:Ec.
+    destruct (const_var_infix_global _ _ _ _ _ _ Hg Ec) as [-> [Hs1 _]].
+    pose proof (const_var_infix_loops _ _ _ _ _ Ec) as L1.
+    assert (gtab (c_symbols st1)) as Hg1 by (rewrite Hs1; exact Hg).
+    specialize (Hgen st1 Hg1). destruct (generic_infix l op r st1) as [st2|e|f|]; cbn [okk] in *; try assumption.
+    destruct Hgen as [A B]. split; congruence.
+  - apply andb_prop in HF. destruct HF as [Hop Hr]. rewrite ce_prefix.
+    apply okk_bind; [apply IHr; assumption|]. intros st1 _.
+    destruct op; try discriminate Hop; cbn [okk emit_opcode c_loops c_symbols]; auto.
+  - rewrite ce_int. apply emit_const_okk.
+  - rewrite ce_bool. cbn [okk emit_opcode c_loops c_symbols]. auto.
+  - rewrite ce_ident. destruct (resolve (c_symbols st) x); [apply emit_sym_okk|cbn [okk]; auto].
+  - destruct l as [| | | | | |x| | | | | | |]; try discriminate HF. rewrite ce_assign_ident.
+    destruct (resolve (c_symbols st) x) as [sy|]; [|cbn [okk]; auto].
+    apply okk_bind; [apply IHr; assumption|]. intros st1 _.
+    apply okk_bind; [apply emit_sym_okk|]. intros st2 _. apply emit_sym_okk.
+Qed.
+
+(* the symbol table after the statements of a line: one new global per `stel`, in order *)
+Lemma compile_stmts_frame : forall l, in_F1 l = true -> forall st k names,
+  c_symbols st = names_tab k names ->
+  match compile_statements l st with
+  | Ok st' => c_loops st' = c_loops st /\ c_symbols st' = names_tab (k + length (lets l)) (names ++ lets l)
+  | Err e => e = EReferenceError \/ e = ESyntaxError
+  | _ => False
+  end.
+Proof.
+  intros l. induction l as [|s0 l IH]; intros HF st k names Hs.
+  - cbn [compile_statements lets length]. rewrite Nat.add_0_r, app_nil_r. auto.
+  - cbn [in_F1 forallb] in HF. apply andb_prop in HF. destruct HF as [HF0 HFl].
+    rewrite compile_statements_cons.
+    assert (gtab (c_symbols st)) as Hg by (rewrite Hs; apply gtab_names).
+    destruct s0 as [x e|e|e| | |]; try discriminate HF0; cbn [in_F1s] in HF0.
+    + rewrite cs_let, Hs, define_names.
+      set (st0 := set_symbols st (names_tab (S k) (names ++ [x]))).
+      assert (gtab (c_symbols st0)) as Hg0 by apply gtab_names.
+      pose proof (compile_expr_okk e HF0 st0 Hg0) as He.
+      destruct (compile_expression e st0) as [st1|e1|f1|]; cbn [bind okk] in *; try assumption.
+      destruct He as [L1 S1]. unfold scoped. cbn [s_scope].
+      pose proof (emit_sym_okk OSetGlobal (mkSymbol SGlobal (length names)) st1) as H2.
+      destruct (emit_sym OSetGlobal (mkSymbol SGlobal (length names)) st1) as [st2|e2|f2|]; cbn [bind okk] in *;
+        try assumption.
+      destruct H2 as [L2 S2].
+      assert (c_symbols st2 = names_tab (S k) (names ++ [x])) as Hs2 by (rewrite S2, S1; reflexivity).
+      specialize (IH HFl st2 (S k) (names ++ [x]) Hs2).
+      destruct (compile_statements l st2) as [st'|e3|f3|]; try assumption.
+      destruct IH as [L3 S3]. cbn [lets length]. split; [rewrite L3, L2, L1; reflexivity|].
+      rewrite S3, <- app_assoc. cbn [app]. f_equal. lia.
+    + rewrite cs_expr.
+      pose proof (compile_expr_okk e HF0 st Hg) as He.
+      destruct (compile_expression e st) as [st1|e1|f1|]; cbn [bind okk] in *; try assumption.
+      destruct He as [L1 S1].
+      assert (c_symbols (emit_opcode OPop st1) = names_tab k names) as Hs2
+        by (cbn [emit_opcode c_symbols]; rewrite S1; exact Hs).
+      specialize (IH HFl (emit_opcode OPop st1) k names Hs2).
+      destruct (compile_statements l (emit_opcode OPop st1)) as [st'|e3|f3|]; try assumption.
+      destruct IH as [L3 S3]. cbn [lets]. split; [rewrite L3; cbn [emit_opcode c_loops]; exact L1|exact S3].
+Qed.
+
+(** * 5. One run of the retained machine on the code of a line *)
+
+(* the run-time value of a pool constant (F1 pools hold integers only) *)
+Definition kval (k : const) : val :=
+  match k with KInt z => VInt z | KFun ip n => VFun ip n | _ => VNull end.
+
+Lemma load_consts_kval : forall ks h, Forall is_kint ks -> load_consts ks h = (map kval ks, h).
+Proof.
+  intros ks h H. induction H as [|k ks [z ->] Hks IH]; [reflexivity|].
+  cbn [load_consts map kval]. rewrite IH. reflexivity.
+Qed.
+
+Lemma trace_kval : forall ks g, Forall is_kint ks -> fold_left maybe_trace (map kval ks) g = g.
+Proof.
+  intros ks g H. induction H as [|k ks [z ->] Hks IH]; [reflexivity|].
+  cbn [map kval fold_left]. unfold maybe_trace at 2. cbn [is_heap_val val_loc]. exact IH.
+Qed.
+
+Lemma consts_ok_kval : forall code ks, consts_ok (mkProgram code (map kval ks)) ks.
+Proof. intros code ks i z H. cbn [p_consts]. rewrite nth_error_map, H. reflexivity. Qed.
+
+Lemma step_halt_exact : forall orc prog s rest,
+  code_at prog (v_ip s) (byte_of_opcode OHalt :: rest) -> scalar (v_final s) = true ->
+  step orc prog s = Ok (Halted (v_final s) (upd_heap (upd_ip s (v_ip s + 1)) (v_heap s) (v_gc s))).
+Proof.
+  intros orc prog s rest Hc Hf.
+  unfold step; rewrite (code_at_0 _ _ _ _ Hc); rewrite (opcode_roundtrip OHalt); cbv beta iota zeta.
+  cbn [v_final v_heap v_gc upd_ip].
+  assert (forall g, untrace (v_heap s) g (v_final s) = Ok g) as Hu.
+  { intros g. unfold untrace. cbn [untrace_fuel].
+    assert (forall l, position_of (v_final s) l = None) as Hp.
+    { induction l as [|x l IH]; cbn [position_of]; [reflexivity|].
+      unfold same_box. destruct (v_final s); try discriminate Hf;
+        (destruct (val_loc x); cbn [val_loc]; rewrite IH; reflexivity). }
+    rewrite Hp. reflexivity. }
+  rewrite Hu. reflexivity.
+Qed.
+
+Lemma vm_line_run : forall orc ast st st1 s0,
+  in_F1 ast = true -> gtab (c_symbols st) -> c_code st = [] -> compile_statements ast st = Ok st1 ->
+  v_ip s0 = 0 -> v_final s0 = VNull -> scalar_m (mst_of s0) ->
+  let prog := mkProgram (c_code st1 ++ [byte_of_opcode OHalt]) (map kval (c_constants st1)) in
+  match pexec orc (c_symbols st) ast (mst_of s0) VNull with
+  | Ok (m', fin') =>
+      exists n sF, (forall b, run_loop orc prog (n + S b) s0 = (Ok fin', sF, b)) /\ mst_of sF = m' /\ v_out sF = v_out s0
+                   /\ scalar fin' = true
+  | Err k =>
+      exists n sF, (forall b, run_loop orc prog (n + S b) s0 = (Err k, sF, b)) /\
+                   mst_of sF = pexec_fail orc (c_symbols st) ast (mst_of s0) /\ v_out sF = v_out s0
+  | Fault f =>
+      exists n sF, (forall b, run_loop orc prog (n + S b) s0 = (Fault f, sF, b)) /\
+                   mst_of sF = pexec_fail orc (c_symbols st) ast (mst_of s0) /\ v_out sF = v_out s0
+  | OutOfFuel => True
+  end.
+Proof.
+  intros orc ast st st1 s0 HF Hg Hcode0 Hc Hip Hfin Hsc prog.
+  destruct (compile_stmts_sim orc ast HF st st1 Hg Hc) as [_ [ce [kx [Hce [Hkx [Hf Hsim]]]]]].
+  rewrite Hcode0 in Hce. cbn [app] in Hce.
+  assert (code_len st = 0) as L0 by (unfold code_len; rewrite Hcode0; reflexivity).
+  assert (code_at prog (code_len st) ce) as Hcode.
+  { exists [], [byte_of_opcode OHalt]. rewrite L0. split; [|reflexivity]. unfold prog. cbn [p_code app]. rewrite Hce. reflexivity. }
+  assert (consts_ok prog (c_constants st1)) as Hk by apply consts_ok_kval.
+  assert (v_ip s0 = code_len st) as Hip' by (rewrite L0; exact Hip).
+  specialize (Hsim prog Hcode Hk s0 Hip'). rewrite Hfin in Hsim.
+  assert (c_code st1 = c_code st ++ ce) as Hce' by (rewrite Hcode0; exact Hce).
+  pose proof (compile_stmts_fail orc ast HF st st1 Hg Hc ce Hce' prog Hcode Hk s0 Hip') as Hfail.
+  rewrite Hfin in Hfail.
+  destruct (pexec orc (c_symbols st) ast (mst_of s0) VNull) as [[m' fin']|e|f|] eqn:Ep; cbn [sim_stmts retag] in *.
+  - destruct Hsim as [n Hn].
+    destruct (pexec_same_hg orc ast HF _ _ VNull _ _ Hsc (eq_refl true) Ep) as [Sfin _].
+    set (sF := setmf s0 (code_len st1) m' fin') in *.
+    assert (code_at prog (v_ip sF) [byte_of_opcode OHalt]) as Hh.
+    { exists ce, []. split; [unfold prog; cbn [p_code]; rewrite Hce; reflexivity|].
+      unfold sF, setmf, code_len. cbn [v_ip]. rewrite Hce. reflexivity. }
+    pose proof (step_halt_exact orc prog sF [] Hh Sfin) as Hst.
+    eexists n, _. split; [|split; [|split; [|exact Sfin]]].
+    + intros b. rewrite (run_loop_reach orc prog n s0 sF (S b) Hn). cbn [run_loop]. rewrite Hst. reflexivity.
+    + unfold sF, setmf, mst_of, upd_heap, upd_ip. cbn [v_heap v_gc v_globals]. apply mst_eta.
+    + reflexivity.
+  - destruct (Hfail ltac:(intros a; discriminate)) as [n [s1 [Hn [Hst [Ho Hm]]]]].
+    exists n, s1. split; [|split; assumption].
+    intros b. rewrite (run_loop_reach orc prog n s0 s1 (S b) Hn). cbn [run_loop]. rewrite Hst. reflexivity.
+  - destruct (Hfail ltac:(intros a; discriminate)) as [n [s1 [Hn [Hst [Ho Hm]]]]].
+    exists n, s1. split; [|split; assumption].
+    intros b. rewrite (run_loop_reach orc prog n s0 s1 (S b) Hn). cbn [run_loop]. rewrite Hst. reflexivity.
+  - exact I.
+Qed.
+
+(** * 6. The simulation relation between a model session and the meaning of the session *)
+
+(* ds: the declarations executed so far, in order, with Sem's cells; slot i of the machine's globals
+   vector belongs to the i-th of them (a redeclared name gets a new slot, which shadows) *)
+Record SRelW (ds : decls) (k : nat) (s : session) (sem : sem_session) : Prop := mkSRel {
+  SR_syms : c_symbols (ss_compiler s) = names_tab k (map fst ds);   (* one context, one scope *)
+  SR_code : c_code (ss_compiler s) = [];
+  SR_loops : c_loops (ss_compiler s) = [];
+  SR_kint : Forall is_kint (c_constants (ss_compiler s));
+  SR_pool : ss_pool s = map kval (c_constants (ss_compiler s));
+  SR_dyn : sm_dyn sem = mkD [rev ds] None;
+  SR_static : sm_static sem = top_sctx (map fst ds);
+  SR_rel : Rel ds (sm_state sem) (mkM (v_heap (ss_vm s)) gc_new (v_globals (ss_vm s)));
+  SR_scalar : Forall (fun v => scalar v = true) (v_globals (ss_vm s))
+}.
+
+Definition SRel (s : session) (sem : sem_session) : Prop := exists ds k, SRelW ds k s sem.
+
+Lemma SRel_init : SRel session_new sem_session_new.
+Proof.
+  exists [], O. constructor; try reflexivity.
+  - constructor.
+  - exact Rel_init.
+  - constructor.
+Qed.
+
+Definition line_res (r : res val) : line_result :=
+  match r with
+  | ROk v st => LValue v (st_heap st) (st_out st)
+  | RSig _ st => LError ESyntaxError (st_out st)
+  | RErr k st => LError k (st_out st)
+  | RFault f st => LFault f (st_out st)
+  | RFuel => LFuel
+  end.
+
+Lemma sem_line'_accepted : forall orc fuel s ast, check_block fuel (sm_static s) ast = None ->
+  sem_line' orc fuel s ast =
+  let et := exec_top orc fuel (sm_dyn s) ast VNull (clear_out (sm_state s)) in
+  (mkSemS (static_of_dyn (fst et)) (fst et) (state_of (snd et) (clear_out (sm_state s))), line_res (snd et)).
+Proof.
+  intros orc fuel s ast H. unfold sem_line', sem_line. rewrite H.
+  destruct (exec_top orc fuel (sm_dyn s) ast VNull (clear_out (sm_state s))) as [c' r].
+  destruct r; reflexivity.
+Qed.
+
+Lemma sem_line'_rejected : forall orc fuel s ast k, check_block fuel (sm_static s) ast = Some k ->
+  sem_line' orc fuel s ast = (mkSemS (static_of_dyn (sm_dyn s)) (sm_dyn s) (sm_state s), LRejected k).
+Proof. intros orc fuel s ast k H. unfold sem_line', sem_line. rewrite H. reflexivity. Qed.
+
+Lemma static_of_dyn_top : forall ds : decls, static_of_dyn (mkD [rev ds] None) = top_sctx (map fst ds).
+Proof. intros ds. unfold static_of_dyn, top_sctx. cbn [d_local map]. rewrite map_rev. reflexivity. Qed.
+
+Lemma Rel_clear_out : forall ds sst m, Rel ds sst m -> Rel ds (clear_out sst) m.
+Proof. intros ds sst m [R1 R2 R3 R4 R5 R6]. constructor; auto. Qed.
+
+(* the model side of a line whose compile succeeds, in terms of the run of the machine *)
+Lemma run_line_ran : forall u orc budget s src ast st1 kx r sf lhs,
+  parse u (parse_float orc) src = Ok ast ->
+  compile_statements ast (ss_compiler s) = Ok st1 ->
+  ss_pool s = map kval (c_constants (ss_compiler s)) ->
+  Forall is_kint (c_constants (ss_compiler s)) ->
+  c_constants st1 = c_constants (ss_compiler s) ++ kx -> Forall is_kint kx ->
+  run_loop orc (mkProgram (c_code st1 ++ [byte_of_opcode OHalt]) (map kval (c_constants st1))) budget
+           (mkVM [] 0 (v_globals (ss_vm s)) [mkFrame 0 0] 0 0 VNull (v_heap (ss_vm s)) gc_new []) = (r, sf, lhs) ->
+  v_gc sf = gc_new ->
+  run_line u orc budget s src =
+  (mkSession (mkC (c_symbols st1) (c_constants st1) [] (Some OHalt) (c_loops st1) (c_lit_allocs st1))
+             (map kval (c_constants st1))
+             (mkVM (v_stack sf) (v_slen sf) (v_globals sf) (v_frames sf) 0 0 VNull (v_heap sf) gc_new []),
+   mkLineObs r (v_out sf) (v_slen sf) (zlength (v_frames sf)) 0 (zlength (c_loops st1)) (v_heap sf)).
+Proof.
+  intros u orc budget s src ast st1 kx r sf lhs Hp Hc Hpool Hki Hkx Hfx Hrun Hgc.
+  unfold run_line, compile_ast. rewrite Hp, Hc. cbv beta iota zeta.
+  cbn [emit_opcode c_symbols c_constants c_code c_last c_loops c_lit_allocs b_constants b_code].
+  rewrite Hpool, map_length, Hkx, skipn_app, skipn_all, Nat.sub_diag. cbn [skipn app].
+  rewrite (load_consts_kval kx _ Hfx), <- map_app.
+  unfold vm_start. cbn [v_globals v_out].
+  rewrite trace_kval by (apply Forall_app; split; assumption).
+  rewrite <- Hkx, Hrun, Hgc. reflexivity.
+Qed.
+
+Lemma SRel_after_run : forall ds' k' st1 sF sst' mf,
+  c_symbols st1 = names_tab k' (map fst ds') -> c_loops st1 = [] -> Forall is_kint (c_constants st1) ->
+  Rel ds' sst' mf -> mst_of sF = mf -> scalar_m mf -> m_gc mf = gc_new ->
+  SRel (mkSession (mkC (c_symbols st1) (c_constants st1) [] (Some OHalt) (c_loops st1) (c_lit_allocs st1))
+                  (map kval (c_constants st1))
+                  (mkVM (v_stack sF) (v_slen sF) (v_globals sF) (v_frames sF) 0 0 VNull (v_heap sF) gc_new []))
+       (mkSemS (static_of_dyn (mkD [rev ds'] None)) (mkD [rev ds'] None) sst').
+Proof.
+  intros ds' k' st1 sF sst' mf Hs Hl Hk HR Hm Hsc Hgc. exists ds', k'.
+  constructor; cbn [ss_compiler ss_pool ss_vm c_symbols c_code c_loops c_constants sm_dyn sm_static sm_state
+                    v_heap v_globals]; auto.
+  - apply static_of_dyn_top.
+  - subst mf. unfold mst_of in *. cbn [m_gc] in Hgc. rewrite <- Hgc. exact HR.
+  - subst mf. exact Hsc.
+Qed.
+
+(** * 7. One line *)
+
+(* what is compared for one line: the outcome (a value is compared when the line ends in an expression
+   statement: DESIGN.md excludes the value of a program that ends in a declaration), nothing printed,
+   no code or loop context left in the compiler *)
+Definition obs_corr (ast : block) (o : line_obs) (r : line_result) : Prop :=
+  lo_out o = [] /\ lo_code o = 0 /\ lo_loops o = 0 /\
+  match r with
+  | LRejected k => lo_result o = Err k
+  | LValue v _ out =>
+      out = [] /\ exists v', lo_result o = Ok v' /\ scalar v' = true /\ (ends_expr ast = true -> v' = v)
+  | LError k out => out = [] /\ lo_result o = Err k
+  | LFault f out => out = [] /\ lo_result o = Fault f
+  | LFuel => False
+  end.
+
+(* the exclusion of finding D29 (class declaration_after_runtime_failure): if the line fails while
+   running, every `stel` of the line was executed before the failure - said as: the names visible
+   after the failure (those whose declaration was executed) are all the names the line declares *)
+Definition decls_done (orc : oracle) (fuel : nat) (sem : sem_session) (ast : block) : Prop :=
+  match exec_top orc fuel (sm_dyn sem) ast VNull (clear_out (sm_state sem)) with
+  | (_, ROk _ _) => True
+  | (c', _) => static_of_dyn c' = static_after (sm_static sem) ast
+  end.
+
+Lemma static_after_F1 : forall l, in_F1 l = true -> forall names,
+  static_after (top_sctx names) l = top_sctx (names ++ lets l).
+Proof.
+  intros l. induction l as [|s0 l IH]; intros HF names.
+  - cbn [static_after lets]. rewrite app_nil_r. reflexivity.
+  - cbn [in_F1 forallb] in HF. apply andb_prop in HF. destruct HF as [HF0 HFl].
+    destruct s0 as [x e|e|e| | |]; try discriminate HF0; cbn [in_F1s] in HF0; cbn [static_after lets].
+    + cbn [stmt_declares]. rewrite declare_top, (IH HFl), <- app_assoc. reflexivity.
+    + assert (stmt_declares (SExpr e) = None) as -> by (destruct e; try discriminate HF0; reflexivity).
+      apply (IH HFl).
+Qed.
+
+Lemma top_sctx_inj : forall a b, top_sctx a = top_sctx b -> a = b.
+Proof.
+  intros a b H. unfold top_sctx in H. inversion H as [H1].
+  rewrite <- (rev_involutive a), <- (rev_involutive b), H1. reflexivity.
+Qed.
+
+Lemma top_level_names : forall k names, top_level (names_tab k names).
+Proof. intros k names. exists (mkContext SGlobal k [names]), names. split; reflexivity. Qed.
+
+Theorem line_refines : forall u orc fuel s sem src ast,
+  SRel s sem ->
+  parse u (parse_float orc) src = Ok ast -> in_F1 ast = true ->
+  (size_block ast <= fuel)%nat ->                                   (* fuel for Sem's static pass *)
+  snd (sem_line' orc fuel sem ast) <> LFuel ->                      (* ... and for its dynamic pass *)
+  snd (compile_ast ast (ss_compiler s)) <> Err ESyntaxError ->      (* the line fits the bytecode format *)
+  decls_done orc fuel sem ast ->                                    (* not in class D29 *)
+  exists n s' o,
+    (forall budget, (n <= budget)%nat -> run_line u orc budget s src = (s', o)) /\
+    SRel s' (fst (sem_line' orc fuel sem ast)) /\
+    obs_corr ast o (snd (sem_line' orc fuel sem ast)) /\
+    ss_compiler s' = fst (compile_ast ast (ss_compiler s)).
+Proof.
+  intros u orc fuel s sem src ast [ds [k W]] Hp HF Hsz Hnf Hfmt Hdd.
+  pose proof (compile_stmts_frame ast HF (ss_compiler s) k (map fst ds) (SR_syms _ _ _ _ W)) as Hframe.
+  pose proof (static_stmts ast HF fuel k (map fst ds) (ss_compiler s) (SR_syms _ _ _ _ W)) as Hstat.
+  pose proof (check_block_fuel ast HF fuel (top_sctx (map fst ds)) Hsz) as Hfuel.
+  assert (gtab (c_symbols (ss_compiler s))) as Hg by (rewrite (SR_syms _ _ _ _ W); apply gtab_names).
+  unfold compile_ast in Hfmt |- *.
+  destruct (compile_statements ast (ss_compiler s)) as [st1|e|f|] eqn:Ec; [| |contradiction..].
+  - (* the compiler accepts the line *)
+    destruct Hframe as [L1 S1]. cbn [static_agree] in Hstat.
+    assert (check_block fuel (sm_static sem) ast = None) as Hck.
+    { rewrite (SR_static _ _ _ _ W). destruct Hstat as [H|H]; [exact H|contradiction]. }
+    rewrite (sem_line'_accepted orc fuel sem ast Hck) in *. cbv zeta in *. cbn [fst snd] in *.
+    unfold decls_done in Hdd.
+    set (st0 := clear_out (sm_state sem)) in *.
+    set (m := mkM (v_heap (ss_vm s)) gc_new (v_globals (ss_vm s))).
+    pose proof (sem_pexec_top orc ast HF fuel k ds st0 m VNull VNull (Rel_clear_out _ _ _ (SR_rel _ _ _ _ W))) as Htop.
+    rewrite <- (SR_dyn _ _ _ _ W) in Htop.
+    destruct (compile_stmts_sim orc ast HF (ss_compiler s) st1 Hg Ec) as [_ [ce [kx [_ [Hkx [Hfx _]]]]]].
+    set (s0 := mkVM [] 0 (v_globals (ss_vm s)) [mkFrame 0 0] 0 0 VNull (v_heap (ss_vm s)) gc_new []).
+    assert (scalar_m m) as Hsc by exact (SR_scalar _ _ _ _ W).
+    pose proof (vm_line_run orc ast (ss_compiler s) st1 s0 HF Hg (SR_code _ _ _ _ W) Ec eq_refl eq_refl Hsc) as Hrun.
+    cbv zeta in Hrun. change (mst_of s0) with m in Hrun. rewrite (SR_syms _ _ _ _ W) in Hrun.
+    assert (Forall is_kint (c_constants st1)) as Hk1.
+    { rewrite Hkx. apply Forall_app. split; [exact (SR_kint _ _ _ _ W)|exact Hfx]. }
+    assert (c_loops st1 = []) as L1' by (rewrite L1; exact (SR_loops _ _ _ _ W)).
+    destruct (exec_top orc fuel (sm_dyn sem) ast VNull st0) as [c' r] eqn:Eet.
+    unfold agree_top in Htop. cbn [fst snd] in *.
+    destruct Htop as [E|[ds' [Ec' H3]]]; [subst r; exfalso; apply Hnf; reflexivity|]. subst c'.
+    assert (forall sF (mf : mst), mst_of sF = mf -> same_hg mf m -> v_gc sF = gc_new) as Hgcnew.
+    { intros sF mf <- [_ [_ G]]. exact G. }
+    destruct (pexec orc (names_tab k (map fst ds)) ast m VNull) as [[m' fin']|e|f|] eqn:Ep; [| | |destruct H3].
+    + (* (a) runs to a value *)
+      destruct H3 as [v [sst' [Er [R' [O' [Nm Hv]]]]]]. subst r.
+      destruct Hrun as [n [sF [Hloop [HmF [HoF Sfin]]]]].
+      destruct (pexec_same_hg orc ast HF _ m VNull m' fin' Hsc (eq_refl true) Ep) as [_ Shg].
+      eexists (n + 1)%nat, _, _. split; [|split; [|split]].
+      * intros budget Hb. replace budget with (n + S (budget - n - 1))%nat by lia.
+        exact (run_line_ran u orc _ s src ast st1 kx _ sF _ Hp Ec (SR_pool _ _ _ _ W) (SR_kint _ _ _ _ W) Hkx Hfx
+                            (Hloop _) (Hgcnew sF m' HmF Shg)).
+      * cbn [state_of]. apply (SRel_after_run ds' (k + length (lets ast)) st1 sF sst' m'); auto.
+        -- rewrite S1, Nm. reflexivity.
+        -- exact (proj1 Shg).
+        -- rewrite (proj2 (proj2 Shg)). reflexivity.
+      * unfold obs_corr. cbn [lo_out lo_code lo_loops lo_result line_res]. rewrite L1'.
+        split; [exact HoF|]. split; [reflexivity|]. split; [reflexivity|].
+        split; [rewrite O'; reflexivity|]. exists fin'. split; [reflexivity|]. split; [exact Sfin|].
+        intros HE. symmetry. apply Hv; [exact HE|reflexivity].
+      * reflexivity.
+    + (* (c) fails while running: an error *)
+      destruct H3 as [sst' [Er [R' O']]]. subst r.
+      destruct Hrun as [n [sF [Hloop [HmF HoF]]]].
+      pose proof (pexec_fail_same_hg orc ast HF (names_tab k (map fst ds)) m Hsc) as Shg.
+      rewrite (SR_static _ _ _ _ W), (static_after_F1 ast HF), static_of_dyn_top in Hdd.
+      apply top_sctx_inj in Hdd.
+      eexists (n + 1)%nat, _, _. split; [|split; [|split]].
+      * intros budget Hb. replace budget with (n + S (budget - n - 1))%nat by lia.
+        exact (run_line_ran u orc _ s src ast st1 kx _ sF _ Hp Ec (SR_pool _ _ _ _ W) (SR_kint _ _ _ _ W) Hkx Hfx
+                            (Hloop _) (Hgcnew sF _ HmF Shg)).
+      * cbn [state_of]. apply (SRel_after_run ds' (k + length (lets ast)) st1 sF sst' (pexec_fail orc (names_tab k (map fst ds)) ast m)); auto.
+        -- rewrite S1, Hdd. reflexivity.
+        -- exact (proj1 Shg).
+        -- rewrite (proj2 (proj2 Shg)). reflexivity.
+      * unfold obs_corr. cbn [lo_out lo_code lo_loops lo_result line_res]. rewrite L1'.
+        split; [exact HoF|]. split; [reflexivity|]. split; [reflexivity|].
+        split; [rewrite O'; reflexivity|reflexivity].
+      * reflexivity.
+    + (* (c) fails while running: a fault (does not happen on F1; the simulation does not need to know) *)
+      destruct H3 as [sst' [Er [R' O']]]. subst r.
+      destruct Hrun as [n [sF [Hloop [HmF HoF]]]].
+      pose proof (pexec_fail_same_hg orc ast HF (names_tab k (map fst ds)) m Hsc) as Shg.
+      rewrite (SR_static _ _ _ _ W), (static_after_F1 ast HF), static_of_dyn_top in Hdd.
+      apply top_sctx_inj in Hdd.
+      eexists (n + 1)%nat, _, _. split; [|split; [|split]].
+      * intros budget Hb. replace budget with (n + S (budget - n - 1))%nat by lia.
+        exact (run_line_ran u orc _ s src ast st1 kx _ sF _ Hp Ec (SR_pool _ _ _ _ W) (SR_kint _ _ _ _ W) Hkx Hfx
+                            (Hloop _) (Hgcnew sF _ HmF Shg)).
+      * cbn [state_of]. apply (SRel_after_run ds' (k + length (lets ast)) st1 sF sst' (pexec_fail orc (names_tab k (map fst ds)) ast m)); auto.
+        -- rewrite S1, Hdd. reflexivity.
+        -- exact (proj1 Shg).
+        -- rewrite (proj2 (proj2 Shg)). reflexivity.
+      * unfold obs_corr. cbn [lo_out lo_code lo_loops lo_result line_res]. rewrite L1'.
+        split; [exact HoF|]. split; [reflexivity|]. split; [reflexivity|].
+        split; [rewrite O'; reflexivity|reflexivity].
+      * reflexivity.
+  - (* (b) the compiler rejects the line: an undeclared name *)
+    cbn [snd] in Hfmt. destruct Hframe as [-> | ->]; [|exfalso; apply Hfmt; reflexivity].
+    cbn [static_agree] in Hstat.
+    assert (check_block fuel (sm_static sem) ast = Some EReferenceError) as Hck.
+    { rewrite (SR_static _ _ _ _ W). destruct Hstat as [H|H]; [exact H|contradiction]. }
+    rewrite (sem_line'_rejected orc fuel sem ast _ Hck). cbn [fst snd].
+    eexists O, _, _. split; [|split; [|split]].
+    + intros budget _. unfold run_line, compile_ast. rewrite Hp, Ec. reflexivity.
+    + exists ds, k. rewrite (SR_dyn _ _ _ _ W).
+      constructor; cbn [ss_compiler ss_pool ss_vm c_symbols c_code c_loops c_constants sm_dyn sm_static sm_state].
+      * rewrite (SR_syms _ _ _ _ W). apply rollback_checkpoint_top. apply top_level_names.
+      * reflexivity.
+      * reflexivity.
+      * exact (SR_kint _ _ _ _ W).
+      * exact (SR_pool _ _ _ _ W).
+      * reflexivity.
+      * apply static_of_dyn_top.
+      * exact (SR_rel _ _ _ _ W).
+      * exact (SR_scalar _ _ _ _ W).
+    + unfold obs_corr, front_obs. cbn [lo_out lo_code lo_loops lo_result ss_compiler c_code c_loops].
+      repeat split; reflexivity.
+    + reflexivity.
+Qed.
+
+(* case (b) spelled out: a line rejected for an undeclared name leaves BOTH sides exactly as they were *)
+Theorem rejected_line_keeps_both_states : forall u orc fuel budget s sem src ast st',
+  SRel s sem -> parse u (parse_float orc) src = Ok ast -> in_F1 ast = true -> (size_block ast <= fuel)%nat ->
+  compile_ast ast (ss_compiler s) = (st', Err EReferenceError) ->
+  let s' := fst (run_line u orc budget s src) in
+  ss_vm s' = ss_vm s /\ ss_pool s' = ss_pool s /\
+  c_symbols (ss_compiler s') = c_symbols (ss_compiler s) /\ c_constants (ss_compiler s') = c_constants (ss_compiler s) /\
+  c_code (ss_compiler s') = [] /\ c_loops (ss_compiler s') = [] /\
+  sem_line' orc fuel sem ast = (sem, LRejected EReferenceError).
+Proof.
+  intros u orc fuel budget s sem src ast st' [ds [k W]] Hp HF Hsz Hc s'.
+  destruct (failed_compile_line_harmless u orc budget s src ast st' _ Hp Hc) as [A [B [C _]]].
+  fold s' in A, B, C. rewrite C.
+  destruct (failed_compile_harmless _ _ _ _ Hc) as [D [_ [E [F _]]]].
+  assert (top_level (c_symbols (ss_compiler s))) as Ht by (rewrite (SR_syms _ _ _ _ W); apply top_level_names).
+  pose proof (failed_compile_restores_names _ _ _ _ Ht Hc) as G.
+  repeat (split; [assumption|]).
+  pose proof (static_stmts ast HF fuel k (map fst ds) (ss_compiler s) (SR_syms _ _ _ _ W)) as Hstat.
+  pose proof (check_block_fuel ast HF fuel (top_sctx (map fst ds)) Hsz) as Hfuel.
+  unfold compile_ast in Hc. destruct (compile_statements ast (ss_compiler s)) as [st1|e|f|]; inversion Hc; subst.
+  cbn [static_agree] in Hstat.
+  assert (check_block fuel (sm_static sem) ast = Some EReferenceError) as Hck.
+  { rewrite (SR_static _ _ _ _ W). destruct Hstat as [H|H]; [exact H|contradiction]. }
+  rewrite (sem_line'_rejected orc fuel sem ast _ Hck). f_equal.
+  rewrite (SR_dyn _ _ _ _ W), static_of_dyn_top, <- (SR_static _ _ _ _ W), <- (SR_dyn _ _ _ _ W).
+  destruct sem; reflexivity.
+Qed.
+
+Print Assumptions compile_expr_fail.
+Print Assumptions compile_stmts_fail.
+Print Assumptions sem_pexec_top.
+Print Assumptions line_refines.
+Print Assumptions rejected_line_keeps_both_states.
